@@ -1,6 +1,7 @@
 package dht
 
 import (
+	"context"
 	"net"
 	"time"
 
@@ -80,12 +81,27 @@ func VerifC06_PingOutcome() {
 		verifAssert(pings == 3, "C14: a questionable contact is pinged with exactly three tries")
 		verifReach("timed-out")
 	}
+	// the contact that missed its liveness ping answers a later query of this node (find_node, through
+	// the real Query and processPacket): it has just answered, so it is good again
+	recovered := false
+	if !answers && verifNondetBool() {
+		p := verifStartQuery(v, context.Background(), old.addr, "find_node", QueryInput{})
+		if p.sent {
+			v.sock.deliver(verifEncode(krpc.Msg{Y: "r", T: p.tid, R: &krpc.Return{ID: old.id}}, 50), old.addr)
+			verifAssert(p.done && p.res.Err == nil, "C07: the contact's reply completes the query")
+			recovered = true
+			verifReach("recovered")
+		}
+	}
 	// the newcomer
 	newID := verifConcreteIDInBucket(v.id, 0, 7)
 	newAddr := &net.UDPAddr{IP: net.IP{192, 0, 2, 50}, Port: 5000}
 	v.sock.deliver(verifEncode(krpc.Msg{Q: "ping", Y: "q", T: "nq", A: &krpc.MsgArgs{ID: newID}}, 50), newAddr)
 	verifMapOrders(false)
-	if answers {
+	if recovered {
+		verifAssert(in(old.id), "C06: a contact that missed a liveness ping but has answered a query since is good and is never removed")
+		verifAssert(!in(newID), "C06: a full bucket of good contacts admits nobody")
+	} else if answers {
 		verifAssert(in(old.id), "C06: a contact that has just answered this node's ping is good and is never removed")
 		verifAssert(!in(newID), "C06: a full bucket of good contacts admits nobody")
 	} else if !in(old.id) {
